@@ -394,7 +394,12 @@ def build_local_filter(cfg):
 @st.composite
 def user_filter_cfgs(draw, k):
     """User-defined window predicates written to the documented interface valid(self, dna_string)."""
-    kind = draw(st.sampled_from(["set", "regional_gc", "forbidden", "purine", "table"]))
+    kind = draw(st.sampled_from(["set", "regional_gc", "forbidden", "purine", "table", "derived"]))
+    if kind == "derived":
+        # a user filter derived from the built-in one: its own extra (forward-only) rule on top of an inherited
+        # GC rule; the documented extension point is the valid() method
+        return {"kind": "derived", "k": k, "gc": draw(st.sampled_from([["0", "1"], ["0.25", "0.75"], ["0", "0.5"]])),
+                "forbids": draw(st.text(alphabet="ACGT", min_size=1, max_size=min(k, 3)))}
     if kind in ("set", "table"):
         density = draw(st.sampled_from([0.15, 0.3, 0.5, 0.7, 0.9]))
         rng = random.Random(draw(st.integers(0, 2 ** 32 - 1)))
@@ -432,6 +437,9 @@ def user_predicate(cfg):
             at = s.count("A") + s.count("T")
             return not (gc > (Fraction(1, 2) + bias) * w or at > (Fraction(1, 2) + bias) * w)
         return regional
+    if kind == "derived":
+        base_cfg = {"k": cfg["k"], "run": None, "gc": cfg["gc"], "motifs": None}
+        return lambda s: o.ref_local_filter(base_cfg, s, only_last=True) is not False and cfg["forbids"] not in s
     if kind == "forbidden":
         return lambda s: not any(sub in s for sub in cfg["subs"])
     return lambda s: s.count("A") + s.count("G") <= cfg["max"]
@@ -457,6 +465,10 @@ def table_filter_class():
             def valid(self, dna_string):
                 return bool(self.table[o.index(dna_string)])
 
+            def __call__(self, dna_string):
+                """A convenience some users add: the list of reasons for a rejection (never used by the library)."""
+                return [] if self.valid(dna_string) else ["not in the accepted table"]
+
         _TABLE_FILTER.append(LookupTableFilter)
     return _TABLE_FILTER[0]
 
@@ -466,6 +478,14 @@ def build_user_filter(cfg):
     dsw = import_dsw()
     if cfg["kind"] == "table":
         return table_filter_class()(cfg["k"], cfg["members"])
+    if cfg["kind"] == "derived":
+        forbids = cfg["forbids"]
+
+        class DerivedFilter(dsw.LocalBioFilter):
+            def valid(self, dna_sequence, only_last=True):
+                return super().valid(dna_sequence, only_last=only_last) and forbids not in dna_sequence
+
+        return DerivedFilter(observed_length=cfg["k"], gc_range=[float(cfg["gc"][0]), float(cfg["gc"][1])])
     predicate = user_predicate(cfg)
 
     class UserFilter(dsw.DefaultBioFilter):
